@@ -34,7 +34,7 @@ ParseIso(s0) ==
       ny == DigitRun(s, 1)
       a  == ny + 1                     \* position of the first '-'
   IN
-  IF ~(ny \in 1..9 /\ At(s, a) = cDash /\ Two(s, a + 1) /\ At(s, a + 3) = cDash /\ Two(s, a + 4)
+  IF ~(ny \in 1..6 /\ At(s, a) = cDash /\ Two(s, a + 1) /\ At(s, a + 3) = cDash /\ Two(s, a + 4)
        /\ At(s, a + 6) \in {cT, cSpace} /\ Two(s, a + 7) /\ At(s, a + 9) = cColon /\ Two(s, a + 10)
        /\ At(s, a + 12) = cColon /\ Two(s, a + 13) /\ ~IsDigit(At(s, a + 15)))
   THEN NotIso
